@@ -200,6 +200,13 @@ func TraceOf(err error) string {
 
 var printMu sync.Mutex
 
+// Timeouts counts watchdog firings of RunBytecode in this process. Monitors stop generating new cases
+// after a few of them: every further non-terminating run would cost the full watchdog time.
+var Timeouts atomic.Int64
+
+// TooManyTimeouts reports whether the process should stop exploring (3 watchdog firings).
+func TooManyTimeouts() bool { return Timeouts.Load() >= 3 }
+
 // RunOpts configures RunBytecode.
 type RunOpts struct {
 	Recover  bool
@@ -231,7 +238,7 @@ func RunBytecode(bc *ugo.Bytecode, ro RunOpts) (out Outcome) {
 	}
 	timeout := ro.Timeout
 	if timeout == 0 {
-		timeout = 20 * time.Second
+		timeout = 10 * time.Second
 	}
 	done := make(chan struct{})
 	var fired atomic.Bool
@@ -272,6 +279,7 @@ func RunBytecode(bc *ugo.Bytecode, ro RunOpts) (out Outcome) {
 		return out
 	}
 	if fired.Load() {
+		Timeouts.Add(1)
 		out.Kind = "timeout"
 		return out
 	}
